@@ -2,7 +2,7 @@
    satisfies the predicate that the check evaluates on the observed outcome.  Hence P_b can only
    fire on a case where the implementation deviates from the model (agree fires too), and an
    implementation that agrees with the model on a case satisfies the property on that case. *)
-From Verif Require Import Lib.Base Model.C16_Paths Model.C16_Sessions Proofs.C16 Proofs.C16_Bytes Proofs.C16_Config Proofs.C16_Sessions Check.C16.
+From Verif Require Import Lib.Base Model.C16_Paths Model.C16_Sessions Proofs.C16 Proofs.C16_Bytes Proofs.C16_Config Proofs.C16_Sessions Model.C16_Aggsel Proofs.C16_Aggsel Check.C16.
 From Coq Require Import ZifyBool ZifyN ZifyNat.
 
 Local Open Scope N_scope.
@@ -228,4 +228,17 @@ Proof.
   intros script evs. unfold P_head_session.
   destruct (forallb answer_wf script) eqn:Hwf; [|reflexivity]. cbn [negb orb].
   rewrite (head_session_wf script evs Hwf). apply P_head_steps_model; [auto | apply incl_refl].
+Qed.
+
+(* path 9 (aggsel) *)
+Lemma bool_list_eqb_refl : forall l : list bool, list_eqb Bool.eqb l l = true.
+Proof. apply list_eqb_refl. intros []; reflexivity. Qed.
+
+Lemma model_satisfies_P_aggsel : forall target sign_ok rows,
+  P_aggsel target sign_ok rows
+    (match aggsel_now target sign_ok rows with Ok l => Ok (true, l) | Err e => Err e | Panic => Panic end) = true.
+Proof.
+  intros target sign_ok rows. unfold P_aggsel.
+  destruct (target =? 0) eqn:E0; [reflexivity|]. apply N.eqb_neq in E0. cbn [orb].
+  rewrite aggsel_spec by exact E0. destruct sign_ok; [|reflexivity]. cbn [andb]. apply bool_list_eqb_refl.
 Qed.
